@@ -25,7 +25,7 @@ BUDGET = {'quick': {'runs': 8000, 'cap_s': 30, 'wall_s': 100, 'chunk': 40},
 WEIGHTS = [('getitem_int', 2), ('getitem_list', 2), ('iterate', 1), ('subset', 3), ('subsample', 3), ('subset_pattern', 4),
            ('subsample_pattern', 3), ('reorder', 4), ('sort_by_alpha', 3), ('sort_by_list', 3), ('append', 3), ('concat', 4),
            ('copy', 2), ('roundtrip_matrix', 2), ('roundtrip_vector', 1), ('roundtrip_dict', 2), ('to_df', 3), ('permute', 2),
-           ('from_partials', 2), ('size_recovery', 1), ('array_write', 1), ('relabel', 1.5)]
+           ('from_partials', 2), ('size_recovery', 1), ('array_write', 1), ('relabel', 1.5), ('redo_after_inplace', 2)]
 INPLACE = [('reorder', 3), ('sort_by_alpha', 2), ('sort_by_list', 2), ('append', 2), ('array_write', 1), ('relabel', 1)]
 PRODUCERS = {'getitem_int', 'getitem_list', 'iterate', 'subset', 'subsample', 'subset_pattern', 'subsample_pattern', 'concat',
              'copy', 'roundtrip_matrix', 'roundtrip_vector', 'roundtrip_dict', 'permute', 'from_partials'}
